@@ -1,4 +1,6 @@
-CONSTANT MaxBase = 1500
+CONSTANTS
+  CapHit = 60
+  CapMiss = 40
 INIT TInit
 NEXT TStep
 CHECK_DEADLOCK FALSE
